@@ -163,7 +163,7 @@ theorem nil_octant_as_zero_blanks_siblings :
 /-- the regenerated shape facts the model relies on -/
 theorem shape_facts : Gen.downresParentIsHalf = true ∧ Gen.downresOctantFromLowBits = true ∧
     Gen.downresChainsLevels = true ∧ Gen.downresKeepsUntouchedOctants = true ∧
-    Gen.downresSolidNeedsAllOctants = true := by decide
+    Gen.downresSolidNeedsAllOctants = true ∧ Gen.downresIdleLooksAtComputedScales = true := by decide
 
 /-- what each voxel of a level is: C10's vote over the eight voxels beneath -/
 theorem level_voxel_is_vote (v : Vol) (x y z : Int) :
